@@ -178,6 +178,24 @@ func c17Modf(x Operand, mode int) (msg string) {
 		frac = new(apd.Decimal)
 	}
 	x.D.Modf(integ, frac)
+	if nd := ref.NDig(x.V.Coef); x.V.Exp >= 0 || -x.V.Exp > nd {
+		// no fractional digits, or nothing but fractional digits: the parts are the operand itself and a zero
+		// (decided on the fields; no power of ten is needed, so any int32 exponent can be checked)
+		whole := x.V.Exp >= 0
+		if integ != nil {
+			v := ToVal(integ)
+			if v.Form != ref.Finite || v.Neg != x.V.Neg || (whole && (v.Exp != x.V.Exp || v.Coef.Cmp(x.V.Coef) != 0)) || (!whole && (v.Coef.Sign() != 0 || v.Exp < 0)) {
+				return fmt.Sprintf("integ = %s, want %s", v, map[bool]string{true: "the operand itself", false: "a zero with the operand's sign and an exponent >= 0"}[whole])
+			}
+		}
+		if frac != nil {
+			v := ToVal(frac)
+			if v.Form != ref.Finite || v.Neg != x.V.Neg || (!whole && (v.Exp != x.V.Exp || v.Coef.Cmp(x.V.Coef) != 0)) || (whole && v.Coef.Sign() != 0) {
+				return fmt.Sprintf("frac = %s, want %s", v, map[bool]string{false: "the operand itself", true: "a zero with the operand's sign"}[whole])
+			}
+		}
+		return ""
+	}
 	r := ref.Rat(x.V)
 	wi := new(big.Int).Quo(r.Num(), r.Denom()) // truncation toward zero
 	wf := new(big.Rat).Sub(r, new(big.Rat).SetInt(wi))
@@ -408,6 +426,12 @@ func c17Run(e *core.Env) {
 	k, w := 3, 6
 	mf := append(Dense(k, w), Edge(EdgeExps)...)
 	mf = append(mf, c17WordFamily()...)
+	// exponents at and beyond the package limits, up to the ends of int32 (a Decimal is a plain struct: New(1, math.MinInt32) is a value)
+	for _, ex := range []int32{math.MinInt32, math.MinInt32 + 1, -2147483647 + 100000, -100001, -100000, 100000, 100001, math.MaxInt32 - 1, math.MaxInt32} {
+		for _, c := range []int64{0, 1, 5, 1234567890123456789} {
+			mf = append(mf, Fin(c, ex, false), Fin(c, ex, true))
+		}
+	}
 	for i := range mf {
 		if !e.Mine(int64(i)) {
 			continue
@@ -456,7 +480,7 @@ func init() {
 		Title: "Integer and float conversions and Modf are exact",
 		Rule:  "Int64 on the int64-boundary family (floor(2^63/10^k)+-2 x trailing zeros x crossing exponents x signs) against exact rationals; constructors on the int64 boundary set x exponents; Float64 on exact float values, midpoints between adjacent floats and +-1 unit perturbations against big.Rat nearest-even; Modf on DENSE+EDGE x {both outputs, integ nil, frac nil} against exact truncation",
 		Bounds: func(tier string) string {
-			return fmt.Sprintf("Int64 family %d values (incl. WORD: 2^62/2^63/2^64/10^18/10^19/10^20 +-2 at every exponent -40..3); constructors 2020 ints x 8 exponents x 4 constructors; Float64 family %d decimals (every %s binary exponent x mantissa patterns: exact value, +-1 in an extra digit, midpoint to the next float +-1, 17-19 digit perturbations, overflow/underflow thresholds); Modf: DENSE(3,6)+EDGE+WORD x 3 output modes", len(c17Int64Family(tier)), len(c17FloatFamily(tier)), map[bool]string{true: "8th", false: "64th"}[tier == "thorough"])
+			return fmt.Sprintf("Int64 family %d values (incl. WORD: 2^62/2^63/2^64/10^18/10^19/10^20 +-2 at every exponent -40..3); constructors 2020 ints x 8 exponents x 4 constructors; Float64 family %d decimals (every %s binary exponent x mantissa patterns: exact value, +-1 in an extra digit, midpoint to the next float +-1, 17-19 digit perturbations, overflow/underflow thresholds); Modf: DENSE(3,6)+EDGE+WORD + exponents at the package limits and at the ends of int32 x 3 output modes", len(c17Int64Family(tier)), len(c17FloatFamily(tier)), map[bool]string{true: "8th", false: "64th"}[tier == "thorough"])
 		},
 		Run:    c17Run,
 		Replay: c17Replay,
